@@ -10,6 +10,9 @@ decided here are the clauses in the shape of the code that the identity needs:
  R3 a single piece per name is fused without any gap row and, for a forward bait, without reversal
  R4 naming / ranking code never touches rows (painting changes only names and order)
  R5 with no contig shared between results the resolve and cut phases do nothing
+ R6 a re-added (missing) scaffold is created under the name of the input scaffold it comes from
+ R7 both junction collectors used by the statistics visit every scaffold that has a fragment (input side and
+    output side are computed by the same per-scaffold function, with no scaffold filtered out)
 """
 
 from __future__ import annotations
@@ -26,7 +29,7 @@ PROP = "C08"
 LEVEL = "other"
 EXPLANATION = (
     "Only structural clauses of C08 are claimed: trim_large_overhangs is interpreted abstractly under the assumption that "
-    "both overhangs are at most error_length − 1 (what a whole-scaffold bait rounded to the texel grid produces) and must not "
+    "both overhangs are at most error_length (what a whole-scaffold bait rounded to the texel grid produces) and must not "
     "remove a row on any path; the namer is evaluated by constant propagation for an untagged, unpainted scaffold (input name, "
     "rank 3, no tag); fusing a single piece adds no gap and does not reverse a forward bait (shared rules of C07/C14); the naming "
     "code is scanned for row mutation; the resolve/cut phases are no-ops on an empty shared map. Equality of whole outputs under "
@@ -34,13 +37,13 @@ EXPLANATION = (
 )
 LEVEL_NOTE = (
     "Claims only the clauses R1–R5 named in the module docstring (necessary conditions of the identity); the identity itself over "
-    "all texel sizes is outside static reach (DESIGN.md section 6). Assumption of R1: overhangs <= error_length − 1, i.e. the bait "
-    "differs from the scaffold span by less than one texel at each end."
+    "all texel sizes is outside static reach (DESIGN.md section 6). Assumption of R1: overhangs <= error_length, i.e. the bait "
+    "differs from the scaffold span by less than one texel (plus integer rounding) at each end."
 )
 
 
 def run(repo: Repo, L: Ledger, tier: str):
-    L.rule("R1", "overhangs <= error_length - 1  =>  trim_large_overhangs removes nothing")
+    L.rule("R1", "overhangs <= error_length  =>  trim_large_overhangs removes nothing")
     L.rule("R2", "unpainted, untagged scaffold: input name, rank 3, no tag")
     L.rule("R3", "single piece: no gap row, forward bait not reversed")
     L.rule("R4", "naming code never mutates rows")
@@ -63,9 +66,11 @@ def run(repo: Repo, L: Ledger, tier: str):
     st.heap[("self", "bait")] = Sym("bait", frag)
     bs, be = Lin.atom("bait._start"), Lin.atom("bait._end")
     err = Lin.atom("err")
-    # start_overhang = bs - S <= err - 1 ; end_overhang = E - be <= err - 1 ; err >= 1
-    st.pc.append(B("le", (bs - S) - (err - 1)))
-    st.pc.append(B("le", (E - be) - (err - 1)))
+    # start_overhang = bs - S <= err ; end_overhang = E - be <= err ; err >= 1
+    # (the bait misses the scaffold end by < 1 texel + rounding: L - int(k*T) <= floor(T) + 1 = error length, with equality
+    #  reachable for fractional texel sizes)
+    st.pc.append(B("le", (bs - S) - err))
+    st.pc.append(B("le", (E - be) - err))
     st.pc.append(B("le", Lin.const(1) - err))
     ps = tlo.params()
     finals = ex.run_function(tlo, st, {ps[0]: Sym("self", ovr), ps[1]: err})
@@ -79,8 +84,8 @@ def run(repo: Repo, L: Ledger, tier: str):
     L.check(
         bad is None, "R1", tlo.short,
         f"no row removed and span unchanged on all {len(finals)} feasible paths",
-        f"with both overhangs below the error length a path still removes a row or moves the span ({bad.path.describe() if bad is not None and bad.path else ''}): a whole-scaffold bait rounded to the texel grid loses its terminal contig, so an unedited map no longer reproduces the input",
-        tlo.loc(), witness={"start_overhang": "<= error_length - 1", "end_overhang": "<= error_length - 1"},
+        f"with both overhangs at most the error length a path still removes a row or moves the span ({bad.path.describe() if bad is not None and bad.path else ''}): a whole-scaffold bait rounded to the texel grid loses its terminal contig, so an unedited map no longer reproduces the input",
+        tlo.loc(), witness={"start_overhang": "<= error_length", "end_overhang": "<= error_length", "example": "bp/texel 1000.7, scaffold length 2001, bait 1-1000: overhang 1001 == error length"},
     )
 
     # ---- R2
@@ -192,4 +197,59 @@ def run(repo: Repo, L: Ledger, tier: str):
         others = [n for n in cro.node.body if not isinstance(n, ast.For | ast.Assign)]
         ok5b = len(loops) == 1 and norm(loops[0].iter).endswith(".values()") and not any(isinstance(c, ast.Call) and "cut_fragments" in norm(c) for n in others for c in walk_shallow(n))
     L.check(ok5b, "R5", cro.short if cro else "cut_remaining_overhangs", "cuts only contigs of the shared map", "the cut phase can act although no contig is shared", cro.loc() if cro else "")
-    L.assume("bait differs from the scaffold span by less than one texel at each end (overhangs <= error_length - 1)")
+    # ---- R6
+    L.rule("R6", "re-added scaffold carries the input scaffold's name")
+    addm = ba.methods.get("add_missing_scaffolds_from_input")
+    if addm is None:
+        raise AnalysisError("anchor BuildAssembly.add_missing_scaffolds_from_input vanished")
+    ip = addm.params()[1]
+    outer = [n for n in addm.node.body if isinstance(n, ast.For) and norm(n.iter) == f"{ip}.scaffolds" and isinstance(n.target, ast.Name)]
+    if len(outer) != 1:
+        raise AnalysisError("add_missing_scaffolds_from_input: loop over the input scaffolds not found")
+    sv = outer[0].target.id
+    ctors = [c for c in walk_shallow(outer[0]) if isinstance(c, ast.Call) and dotted(c.func) == "Scaffold"]
+    if not ctors:
+        raise AnalysisError("add_missing_scaffolds_from_input: no Scaffold(...) construction in the re-add loop")
+    for c in ctors:
+        a = c.args[0] if c.args else next((k.value for k in c.keywords if k.arg == "name"), None)
+        L.check(
+            a is not None and norm(a) == f"{sv}.name", "R6", f"{addm.short}:Scaffold(...)", "named after the input scaffold",
+            f"a re-added scaffold is named '{norm(a) if a is not None else None}', not after the input scaffold ({sv}.name): sub-texel scaffolds missing from an unedited map come back under another name",
+            addm.loc(c), witness={"input": "scaffold_4 = ctg6 + gap + ctg7, shorter than one texel", "expected name": "scaffold_4"},
+        )
+    renames = [n for n in walk_shallow(outer[0]) if isinstance(n, ast.Assign) and any(isinstance(t, ast.Attribute) and t.attr == "name" for t in n.targets)]
+    L.check(not renames, "R6", f"{addm.short}:rename", "the name is not reassigned in the re-add loop", f"re-added scaffold renamed: {[norm(n)[:50] for n in renames[:1]]}", addm.loc())
+
+    # ---- R7
+    L.rule("R7", "junction collectors visit every scaffold with a fragment")
+    from ..flow import PathEnum, cond_facts
+
+    asm = repo.cls("Assembly")
+    n7 = 0
+    for name in ("fragment_junction_set", "fragment_junctions_by_asm_prefix"):
+        f = asm.methods.get(name)
+        if f is None:
+            raise AnalysisError(f"anchor Assembly.{name} vanished")
+        loops = [n for n in f.node.body if isinstance(n, ast.For) and norm(n.iter) == "self.scaffolds" and isinstance(n.target, ast.Name)]
+        if len(loops) != 1:
+            raise AnalysisError(f"Assembly.{name}: loop over self.scaffolds not found")
+        lv = loops[0].target.id
+        ok7, why7 = True, ""
+        n_paths = 0
+        for p in PathEnum((0, 1), exc_edges=False).block(loops[0].body):
+            n_paths += 1
+            got = [
+                n for e in p.events if e.kind == "stmt" for n in [e.node, *walk_shallow(e.node)]
+                if isinstance(n, ast.Call) and isinstance(n.func, ast.Attribute) and n.func.attr == "fragment_junction_set" and is_name(n.func.value, lv)
+            ]
+            if got:
+                continue
+            # a path that collects nothing is fine only for a scaffold known to be empty
+            empty = any(norm(t).replace(" ", "") in (f"{lv}.rows", f"len({lv}.rows)") and v is False for e in p.events if e.kind == "cond" for t, v in cond_facts(e.node, e.val))
+            if not empty:
+                conds = [f"{norm(e.node)[:40]} is {e.val}" for e in p.events if e.kind == "cond"]
+                ok7, why7 = False, f"scaffolds are skipped when {' and '.join(conds) or 'always'}: their junctions are missing from this side of the comparison, so an unedited map is reported with joins/breaks"
+        n7 += n_paths
+        L.check(ok7, "R7", f"Assembly.{name}", "every scaffold's fragment_junction_set() is collected", why7, f.loc(), witness={"input": "a scaffold of exactly two abutting contigs and no gap row"})
+    L.floor("R7", "collector loop paths", n7, 2)
+    L.assume("bait differs from the scaffold span by less than one texel plus integer rounding at each end (overhangs <= error_length)")
